@@ -307,7 +307,10 @@ class Type4Tag(nfc.tag.Tag):
                 data = bytearray()
                 while len(data) < nlen:
                     offset = self._nlen_size + len(data)
-                    data += self._read_binary(offset, nlen - len(data))
+                    part = self._read_binary(offset, nlen - len(data))
+                    if len(part) == 0:
+                        return None  # no progress, give up
+                    data += part
 
             except Type4TagCommandError:
                 return None
